@@ -156,6 +156,9 @@ def encode_multipart(
     return boundary, stream.read()
 
 
+_environ_path_quote = {ord(c): f"%{ord(c):02X}" for c in "%?#\t\r\n"}
+
+
 def _iter_data(data: t.Mapping[str, t.Any]) -> t.Iterator[tuple[str, t.Any]]:
     """Iterate over a mapping that might have a list of values, yielding
     all key, value pairs. Almost like iter_multi_items but only allows
@@ -405,12 +408,18 @@ class EnvironBuilder:
         .. versionadded:: 0.15
         """
         headers = Headers(EnvironHeaders(environ))
+
+        def _path_decode(x: str) -> str:
+            # The environ holds unquoted paths, the builder takes URL paths. Quote
+            # the characters that would otherwise be interpreted a second time.
+            return _wsgi_decoding_dance(x).translate(_environ_path_quote)
+
         out = {
-            "path": _wsgi_decoding_dance(environ["PATH_INFO"]),
+            "path": _path_decode(environ["PATH_INFO"]),
             "base_url": cls._make_base_url(
                 environ["wsgi.url_scheme"],
                 headers.pop("Host"),
-                _wsgi_decoding_dance(environ["SCRIPT_NAME"]),
+                _path_decode(environ["SCRIPT_NAME"]),
             ),
             "query_string": _wsgi_decoding_dance(environ["QUERY_STRING"]),
             "method": environ["REQUEST_METHOD"],
